@@ -5,7 +5,7 @@ from ..worldprop import base_outcome, completion, REAL_VS_STUB  # noqa
 
 np = sut.np
 ID = "C04"
-RUNS = {"quick": 7000, "thorough": 200000}
+RUNS = {"quick": 17500, "thorough": 200000}
 BUDGET = {"quick": 45, "thorough": 780}
 RULE = ("scripted-party worlds: schedules of length 1..horizon+k over arbitrary station subsets, {} answers, mixed "
         "containers / scalar types, shuffled key order, max_recompute in {None,1,k}; non-trivial = >=2 overlapping "
